@@ -76,6 +76,33 @@ def _threshold_integrity(ctx):
                 ok = True
             ctx.check(ok, "R4", m, st, qual, f"eps in `{short(norm(st))}`", f"eps is used as a comparison bound or handed on unchanged ({type(par).__name__})",
                       f"`{short(norm(st))}` derives a different threshold from the requested eps in {qual}")
+    # the configured threshold itself may only be tightened on its way to the solver (never loosened)
+    bas = repo.mod("seqm/basics.py")
+    n_w = 0
+    for st in ast.walk(bas.tree):
+        if isinstance(st, (ast.Assign, ast.AugAssign)):
+            tg = st.targets if isinstance(st, ast.Assign) else [st.target]
+            for t in tg:
+                if isinstance(t, ast.Subscript) and isinstance(t.slice, ast.Constant) and t.slice.value == "scf_eps" and "seqm_parameters" in norm(t.value):
+                    n_w += 1
+                    q = bas.qualname_of(st)
+                    v = st.value
+                    vt = norm(v).replace(" ", "")
+                    tt = norm(t).replace(" ", "")
+                    ok = False
+                    why = ""
+                    if isinstance(v, ast.Call) and (call_name(v) or "") == "min" and any(norm(a).replace(" ", "") == tt for a in v.args):
+                        ok, why = True, "min(old, bound)"
+                    else:
+                        from ..guards import controlling
+                        for a, pol, _ in controlling(bas, st):
+                            at = norm(a).replace(" ", "")
+                            if pol and at in (f"{tt}>{vt}", f"{vt}<{tt}", f"{tt}>={vt}", f"{vt}<={tt}"):
+                                ok, why = True, f"guarded by `{norm(a)}`"
+                    ctx.check(ok, "R4", bas, st, q, st, f"{q}: the requested scf_eps is only ever tightened ({why})",
+                              f"{q}: `{short(norm(st), 80)}` can loosen the SCF threshold the user asked for (it is not `old = min(old, bound)` nor guarded by `old > bound`): "
+                              f"with this setting, tightening scf_eps below the bound no longer changes the result and solver paths stop agreeing within a multiple of the requested threshold")
+    ctx.check(n_w >= 1, "R4", bas, bas.tree, "<module>", "scf_eps rewrites", f"{n_w} rewrite(s) of the configured scf_eps inventoried", "rewrite sites of scf_eps not found")
     ctx.floor("R4", 15)
 
 
@@ -88,6 +115,9 @@ def run(ctx):
     ctx.rule("R3", "attribute universe: attributes read on Molecule objects exist")
     ctx.rule("R4", "threshold integrity: the requested scf_eps reaches every convergence comparison unmodified (only the inventoried constant factors)")
     ctx.rule("R5", "spin flattening: unrestricted (B,2,N,N) tensors are flattened with per-molecule sizes interleaved (UHF == RHF on mixed batches)")
+    ctx.rule("R6", "a re-used molecule reports the same gap as a cold start: the gap is read before orbital-character tracking permutes the energies (shared with C14-R3)")
+    from .c14 import check_gap_before_tracking
+    check_gap_before_tracking(ctx, repo.mod("seqm/basics.py"), "R6")
     _threshold_integrity(ctx)
     from .c05 import check_spin_flatten
     check_spin_flatten(ctx, "R5")
